@@ -156,7 +156,7 @@ VF_ZCFG_END
 VF_ZCFG_BEGIN(12, 4, true, true, P4_4, 3, 5, 1)   // twin of 1: states 0 and 3 define no callback
 	static constexpr int inj(int i) { return i == 1 ? 1 : i == 2 ? 2 : 0; } static constexpr int headInj() { return 0; } static constexpr bool bare(int i) { return i == 0 || i == 3; }
 VF_ZCFG_END
-VF_ZCFG_BEGIN(13, 2, true, false, void, 255, 0, 0)   // the largest substitution limit the configuration type can express
+VF_ZCFG_BEGIN(13, 2, true, false, void, 255, 0, 1)   // the largest substitution limit the configuration type can express
 	static constexpr int inj(int) { return 0; } static constexpr int headInj() { return 0; } static constexpr bool bare(int) { return false; }
 VF_ZCFG_END
 VF_ZCFG_BEGIN(14, 3, false, true, P2_2, 255, 2, 1)   // L = 255, manual, headless, payload
@@ -590,7 +590,7 @@ struct Runner {
 #define VF_LGONLY
 #endif
 		if constexpr (Z::CTX == 0) new (where) Instance(VF_LGONLY);
-		else if constexpr (Z::CTX == 1) new (where) Instance(Ctx{W.ctxTag[i]} VF_LGARG);
+		else if constexpr (Z::CTX == 1) { if (i == 1) { Ctx lv{W.ctxTag[i]}; new (where) Instance(lv VF_LGARG); } else new (where) Instance(Ctx{W.ctxTag[i]} VF_LGARG); }   // both the lvalue and the rvalue constructor
 		else if constexpr (Z::CTX == 2) new (where) Instance(W.ctxObj[W.ctxOf[i]] VF_LGARG);
 		else new (where) Instance(&W.ctxObj[W.ctxOf[i]] VF_LGARG);
 #undef VF_LGARG
